@@ -18,7 +18,7 @@
    The protocol part of C02 (no deadlock, termination, syncutil.Go / LimitedRegion) is
    Properties/C02_protocol.v. *)
 From Oras Require Import Base.Prelude Generated.GC02 Model.CopySpec Model.CopyTop Model.CopyOpt Model.CopyFault
-  Model.CopyAbs Proofs.CopyAbs Model.CopyFaultOpt Proofs.CopySpec Proofs.CopyFault Proofs.CopyFnFacts Proofs.CopyFaultOpt Proofs.CopyFaultLive Proofs.CopyFaultTerm.
+  Model.CopyAbs Proofs.CopyAbs Model.CopyFaultOpt Proofs.CopySpec Proofs.CopyFault Proofs.CopyFnFacts Proofs.CopyFaultOpt Proofs.CopyFaultLive Proofs.CopyFaultTerm Proofs.CopyFaultTermM.
 Local Open Scope nat_scope.
 
 (* The tie of the hand-modelled error handling to the source (layer T -> P): the syntactic facts
@@ -226,6 +226,62 @@ Theorem C02_rerun_completes :
       forall r n, is_call_root g c2 ext2 r -> reach g r n -> has g (dst (fb fs3)) n = true.
 Proof. exact frerun_completes. Qed.
 Print Assumptions C02_rerun_completes.
+
+(* Completion WITHOUT the "no Mounter" premise (second extension round).  With a registry.Mounter destination
+   the acceptor allows any number of Mount candidates, so fault-free runs are not bounded there; but every event
+   other than a further Mount attempt moves one node strictly forward for a second potential function, and the
+   no-stuck-state witnesses never are a further Mount attempt.  Hence, when content keys are injective: from
+   every state a fault-free accepted trace reaches without having returned -- Mounter or not -- a finite
+   fault-free continuation reaches the successful return; and as the second call after ANY first call it then
+   holds everything reachable from its roots (mt_consistent follows from the injectivity). *)
+Theorem C02_nofault_completes_mounter :
+  forall (g : graph) (c : cfg) (ext : bool) (d0 : list node) (rank : node -> nat),
+    (forall n x, In x (succ' g n) -> rank x < rank n) ->
+    1 <= c_K c -> c_root c < g_n g -> (forall x, In x (c_xroots c) -> x < g_n g) ->
+    (forall n x, n < g_n g -> In x (succ' g n) -> x < g_n g) ->
+    (ext = true -> forall n, ~ In (c_root c) (succ' g n)) ->
+    (forall a b, g_dkey g a = g_dkey g b -> a = b) ->
+    forall (tr : list fevent) (fs : fstate),
+    ext_ok g c ext d0 -> faccepts g c ext d0 tr = Some fs -> existsb is_fault tr = false ->
+    returned (fb fs) = None ->
+    exists tr2 fs2, existsb is_fault tr2 = false /\
+      faccepts g c ext d0 (tr ++ tr2) = Some fs2 /\ returned (fb fs2) = Some true.
+Proof. exact fnofault_completes_m. Qed.
+Print Assumptions C02_nofault_completes_mounter.
+
+Theorem C02_rerun_completes_mounter :
+  forall (g : graph) (c1 c2 : cfg) (ext1 ext2 : bool) (d0 : list node) (rank : node -> nat)
+         (tr1 : list fevent) (fs1 : fstate) (tr2 : list fevent) (fs2 : fstate),
+    (forall n x, In x (succ' g n) -> rank x < rank n) ->
+    1 <= c_K c2 -> c_root c2 < g_n g -> (forall x, In x (c_xroots c2) -> x < g_n g) ->
+    (forall n x, n < g_n g -> In x (succ' g n) -> x < g_n g) ->
+    (ext2 = true -> forall n, ~ In (c_root c2) (succ' g n)) ->
+    (forall a b, g_dkey g a = g_dkey g b -> a = b) ->
+    ext_ok g c1 ext1 d0 -> closed_nodes g d0 ->
+    faccepts g c1 ext1 d0 tr1 = Some fs1 ->
+    ext_ok g c2 ext2 (dst (fb fs1)) ->
+    faccepts g c2 ext2 (dst (fb fs1)) tr2 = Some fs2 -> existsb is_fault tr2 = false -> returned (fb fs2) = None ->
+    exists tr3 fs3, existsb is_fault tr3 = false /\
+      faccepts g c2 ext2 (dst (fb fs1)) (tr2 ++ tr3) = Some fs3 /\ returned (fb fs3) = Some true /\
+      forall r n, is_call_root g c2 ext2 r -> reach g r n -> has g (dst (fb fs3)) n = true.
+Proof. exact frerun_completes_m. Qed.
+Print Assumptions C02_rerun_completes_mounter.
+
+Theorem C02_opt_nofault_completes :
+  forall (cs : cbset) (g : graph) (c : cfg) (ext : bool) (d0 : list node) (rank : node -> nat)
+         (tr : list fevent) (fs : fstate) (full : list fevent),
+    (forall n x, In x (succ' g n) -> rank x < rank n) ->
+    1 <= c_K c -> c_root c < g_n g -> (forall x, In x (c_xroots c) -> x < g_n g) ->
+    (forall n x, n < g_n g -> In x (succ' g n) -> x < g_n g) ->
+    (ext = true -> forall n, ~ In (c_root c) (succ' g n)) ->
+    (forall a b, g_dkey g a = g_dkey g b -> a = b) ->
+    ext_ok g c ext d0 ->
+    faccepts_opt cs g c ext d0 tr = Some (fs, full) -> existsb is_fault tr = false ->
+    returned (fb fs) = None ->
+    exists tr2 fs2, existsb is_fault tr2 = false /\
+      faccepts g c ext d0 (full ++ tr2) = Some fs2 /\ returned (fb fs2) = Some true.
+Proof. exact fopt_nofault_completes. Qed.
+Print Assumptions C02_opt_nofault_completes.
 
 Example C02_example_progress_hypotheses :
   (forall n x, In x (succ' g_sh n) -> x < n) /\ 1 <= c_K c_sh /\ c_root c_sh < g_n g_sh /\
